@@ -133,7 +133,9 @@ def cases(draw):
         return d
     base = draw(valid_cases())
     base["extras"] = None
-    return {"kind": "malformed", "cls": draw(st.sampled_from(MALFORMED)), "base": base,
+    # sampled_from favours early elements; hash a wide integer instead so the 32 classes come out evenly
+    cls = MALFORMED[hash32("cls", draw(st.integers(0, 1 << 20)), draw(st.integers(0, 1 << 20)), draw(st.integers(0, 999))) % len(MALFORMED)]
+    return {"kind": "malformed", "cls": cls, "base": base,
             "where": draw(st.integers(0, 7)), "pick": draw(st.integers(0, 7))}
 
 
